@@ -59,7 +59,7 @@ func EnvNames(tier string) []string {
 	// ckks-prec: the ckks encoder (stand-alone and inside the evaluator) in arbitrary precision (128 bits):
 	// big.Float / bignum.Complex scratch buffers and the embedArbitrary / big-number FFT code paths
 	// ckks-ci: CKKS over the conjugate-invariant ring Z[X+X^-1]/(X^2N+1) (real slots only, NthRoot = 4N)
-	n := []string{"bgv", "bfv", "ckks", "rlwe", "rlwe-coef", "bgv-1p", "rlwe-pow2", "ckks-prec", "ckks-ci", "ckks-1p"}
+	n := []string{"bgv", "bfv", "ckks", "rlwe", "rlwe-coef", "bgv-1p", "rlwe-pow2", "ckks-prec", "ckks-ci", "ckks-1p", "ckks-deep", "bgv-deep"}
 	_ = tier // every environment is part of both tiers; the tiers differ in the depth of the receiver histories
 	return n
 }
@@ -92,20 +92,27 @@ func GetEnv(name string) *Env {
 	}
 	var err error
 	switch name {
-	case "bgv", "bfv", "bgv-1p":
+	case "bgv", "bfv", "bgv-1p", "bgv-deep":
 		e.Scheme = "bgv"
+		if name == "bgv-deep" { // six levels: polynomials of degree up to 31 (Paterson-Stockmeyer splits)
+			q = append(q, uni.PrimesSkip(LogN, 40, 2, 1)...)
+		}
 		e.ScaleInvariant = name == "bfv"
 		e.BGV, err = bgv.NewParametersFromLiteral(bgv.ParametersLiteral{LogN: LogN, Q: q, P: p, PlaintextModulus: 97})
 		if err == nil {
 			e.RLWE = e.BGV.Parameters
 		}
-	case "ckks", "ckks-1p", "ckks-prec", "ckks-ci":
+	case "ckks", "ckks-1p", "ckks-prec", "ckks-ci", "ckks-deep":
 		e.Scheme = "ckks"
 		if name == "ckks-prec" {
 			e.Prec = 128
 		}
 		// q0 55 bits, then three 40-bit primes: LogDefaultScale 40 rescales exactly one prime per level
-		cq := append([]uint64{q[0]}, uni.Primes(LogN, 40, 3)...)
+		nq := 3
+		if name == "ckks-deep" { // six levels: polynomials of degree up to 31 (Paterson-Stockmeyer splits)
+			nq = 5
+		}
+		cq := append([]uint64{q[0]}, uni.Primes(LogN, 40, nq)...)
 		rt := ring.Standard
 		if name == "ckks-ci" {
 			rt = ring.ConjugateInvariant
